@@ -146,7 +146,8 @@ class Ctx:
         # violation claim
         p = subprocess.run([DRIVER], input='\n'.join(lines) + '\n',
                            capture_output=True, text=True,
-                           timeout=int(os.environ.get('VERIF_DRIVER_TIMEOUT', '1500')))
+                           timeout=int(os.environ.get('VERIF_DRIVER_TIMEOUT',
+                                                      '7200' if self.tier == 'thorough' else '1500')))
         out = p.stdout.split('\n')
         if out and out[-1] == '':
             out.pop()
